@@ -788,10 +788,14 @@ class Model:
         `roles` maps local names whose role was discovered structurally (loop variable, handler name ...) to a role label that
         is kept distinct instead of being masked."""
         locs = self.local_names(f)
-        roles = roles or {}
+        roles = dict(roles or {})
+        for k_, v_ in self._param_roles(f, actual=True).items():
+            roles.setdefault(k_, v_)
         import copy as _copy
         n2 = _copy.deepcopy(node if node is not None else f.node)
         for x in ast.walk(n2):
+            if isinstance(x, ast.arg) and x.arg in roles and roles[x.arg].startswith("_P"):
+                x.arg = roles[x.arg]
             if isinstance(x, ast.Name) and x.id in roles:
                 x.id = roles[x.id]
             elif isinstance(x, ast.Name) and x.id in locs:
@@ -809,6 +813,27 @@ class Model:
                 canon_compare(x)
         return ast.unparse(n2)
 
+    _baseline_params: dict[str, list[str]] | None = None
+
+    def _param_roles(self, f: FuncInfo, actual: bool) -> dict[str, str]:
+        """Private functions: parameters are addressed by position (`_P<i>`), so that renaming one is invisible to the rules. `actual` maps the
+        names in the analysed tree, otherwise the names the rule patterns are written with (sa/baseline_params.json, recorded from the pinned tree)."""
+        if not f.name.startswith("_") or f.name.startswith("__"):
+            return {}
+        if Model._baseline_params is None:
+            import json as _json
+            try:
+                Model._baseline_params = _json.loads((Path(__file__).parent / "baseline_params.json").read_text())
+            except OSError:
+                Model._baseline_params = {}
+        base = Model._baseline_params.get(f.qualname)
+        a = f.node.args
+        now = [x.arg for x in a.posonlyargs + a.args + a.kwonlyargs]
+        if base is None or len(base) != len(now):
+            return {}
+        names = now if actual else base
+        return {n_: f"_P{i}" for i, n_ in enumerate(names) if n_ not in ("self", "cls")}
+
     def mpat(self, f: FuncInfo, text: str) -> str:
         """Mask an expected snippet (written with today's names) the same way: every name that is neither a parameter of f,
         nor a module-level name / import / builtin is a local."""
@@ -821,8 +846,11 @@ class Model:
         if a.kwarg:
             keep.add(a.kwarg.arg)
         keep |= set(mod.imports) | set(mod.classes) | set(mod.functions) | set(mod.assigns)
+        proles = self._param_roles(f, actual=False)
         for x in ast.walk(tree):
-            if isinstance(x, ast.Name) and x.id not in keep:
+            if isinstance(x, ast.Name) and x.id in proles:
+                x.id = proles[x.id]
+            elif isinstance(x, ast.Name) and x.id not in keep:
                 x.id = "_L"
             if isinstance(x, ast.ExceptHandler) and x.name:
                 x.name = "_L"
